@@ -650,7 +650,7 @@ PROPS = {
     "C01": {
         "module": "DnsModel.Theorems.C01",
         "theorems": ["Dns.C01.parse_total", "Dns.C01.checkCompressedName_total", "Dns.C01.checkUncompressedName_total",
-                     "Dns.C01.checkCompressedName_in_bounds", "Dns.C01.cursor_total", "Dns.C01.source_check_compressed_name_total", "Dns.C01.source_check_uncompressed_name_total", "Dns.C01.source_check_compressed_name_in_bounds", "Dns.C01.source_cursor_tie", "Dns.C01.source_loader_tie"],
+                     "Dns.C01.checkCompressedName_in_bounds", "Dns.C01.cursor_total", "Dns.C01.source_check_compressed_name_total", "Dns.C01.source_check_uncompressed_name_total", "Dns.C01.source_check_compressed_name_in_bounds", "Dns.C01.source_cursor_tie", "Dns.C01.source_loader_tie", "Dns.C01.source_parse_total"],
         "families": [
             {"name": "boundary-parse", "quick": 0, "thorough": 0, "fixed": True},
             {"name": "parse", "quick": 6000, "thorough": 300000},
@@ -817,7 +817,7 @@ PROPS = {
         "level": "other", "explanation": "", "assumptions": [],
     },
     "C18": {
-        "module": "DnsModel.Theorems.C18", "theorems": ["Dns.C18.steps_linear", "Dns.C18.erasure", "Dns.C18.source_walkers"],
+        "module": "DnsModel.Theorems.C18", "theorems": ["Dns.C18.steps_linear", "Dns.C18.erasure", "Dns.C18.source_walkers", "Dns.C18.source_erasure"],
         "families": [{"name": "steps-adversarial", "quick": 0, "thorough": 0, "fixed": True}, {"name": "steps", "quick": 3000, "thorough": 300000}],
         "oracle": oracle_c18, "nontrivial": nontrivial_parse_steps if False else (lambda c, a: True),
         "rule": "C01's packet stream plus families built to maximise work (chains 1..17 deep x tail labels x up to 400 records; 1000 SOA records naming a 255-byte name three times through pointers; 16000 options; labels interleaved with pointer runs; lying counts); the hook's counter must equal the model's count and stay under the bound",
@@ -841,7 +841,7 @@ PROPS = {
     },
     "C02": {
         "module": "DnsModel.Theorems.C02",
-        "theorems": ["Dns.C02.parse_ok_iff_wf", "Dns.C02.wf_accepted", "Dns.C02.accepted_wf", "Dns.C02.name_ok_iff_valid", "Dns.C02.plain_name_ok_iff", "Dns.C02.source_name_ok_iff_valid", "Dns.C02.source_plain_name_ok_iff"],
+        "theorems": ["Dns.C02.parse_ok_iff_wf", "Dns.C02.wf_accepted", "Dns.C02.accepted_wf", "Dns.C02.name_ok_iff_valid", "Dns.C02.plain_name_ok_iff", "Dns.C02.source_name_ok_iff_valid", "Dns.C02.source_plain_name_ok_iff", "Dns.C02.source_parse_ok_iff_wf"],
         "families": [
             {"name": "boundary-parse", "quick": 0, "thorough": 0, "fixed": True},
             {"name": "parse", "quick": 8000, "thorough": 400000},
